@@ -1,0 +1,83 @@
+//go:build verif
+
+package jose
+
+import "io"
+
+// Verification hooks (build tag "verif" only): accessors for unexported helpers; nothing re-implemented.
+
+func VerifBase64URLEncode(data []byte) string          { return base64URLEncode(data) }
+func VerifBase64URLDecode(data string) ([]byte, error) { return base64URLDecode(data) }
+
+// VerifSetRandReader replaces the package's random source (deterministic runs); returns the previous one.
+func VerifSetRandReader(r io.Reader) io.Reader {
+	old := randReader
+	randReader = r
+	return old
+}
+
+// VerifJWSAuthData is the signing input Verify uses for signature i of a (parsed or fresh) JWS.
+func VerifJWSAuthData(obj *JsonWebSignature, i int) []byte {
+	return obj.computeAuthData(&obj.Signatures[i])
+}
+
+// VerifJWEAuthData is the additional authenticated data Decrypt uses for a (parsed or fresh) JWE.
+func VerifJWEAuthData(obj *JsonWebEncryption) []byte { return obj.computeAuthData() }
+
+// VerifJWEParts exposes the octets of a JWE: protected header as received (nil if absent), aad, iv,
+// ciphertext, tag and the encrypted key of every recipient.
+func VerifJWEParts(obj *JsonWebEncryption) (protected, aad, iv, ciphertext, tag []byte, encryptedKeys [][]byte) {
+	if obj.original != nil && obj.original.Protected != nil {
+		protected = obj.original.Protected.bytes()
+	} else if obj.original == nil && obj.protected != nil {
+		protected = mustSerializeJSON(obj.protected)
+	}
+	for _, r := range obj.recipients {
+		encryptedKeys = append(encryptedKeys, r.encryptedKey)
+	}
+	return protected, obj.aad, obj.iv, obj.ciphertext, obj.tag, encryptedKeys
+}
+
+// VerifJWSParts exposes the octets of signature i of a JWS: protected header as received, payload, signature.
+func VerifJWSParts(obj *JsonWebSignature, i int) (protected, payload, signature []byte) {
+	s := &obj.Signatures[i]
+	if s.original != nil && s.original.Protected != nil {
+		protected = s.original.Protected.bytes()
+	} else if s.protected != nil {
+		protected = mustSerializeJSON(s.protected)
+	}
+	return protected, obj.payload, s.Signature
+}
+
+// VerifMergedHeader returns alg/enc/zip/kid as Decrypt sees them for recipient i (merge precedence).
+func VerifMergedHeader(obj *JsonWebEncryption, i int) (alg, enc, zip, kid string) {
+	h := obj.mergedHeaders(&obj.recipients[i])
+	return h.Alg, string(h.Enc), string(h.Zip), h.Kid
+}
+
+// VerifAEADDecrypt runs the content cipher's decrypt (the parameter checks before Open included).
+func VerifAEADDecrypt(enc ContentEncryption, key, aad, iv, ciphertext, tag []byte) ([]byte, error) {
+	c := getContentCipher(enc)
+	if c == nil {
+		return nil, ErrUnsupportedAlgorithm
+	}
+	return c.decrypt(key, aad, &aeadParts{iv: iv, ciphertext: ciphertext, tag: tag})
+}
+
+// VerifAEADEncrypt runs the content cipher's encrypt; returns iv, ciphertext, tag.
+func VerifAEADEncrypt(enc ContentEncryption, key, aad, plaintext []byte) (iv, ciphertext, tag []byte, err error) {
+	c := getContentCipher(enc)
+	if c == nil {
+		return nil, nil, nil, ErrUnsupportedAlgorithm
+	}
+	p, err := c.encrypt(key, aad, plaintext)
+	if err != nil {
+		return nil, nil, nil, err
+	}
+	return p.iv, p.ciphertext, p.tag, nil
+}
+
+// VerifFixedSizeBuffer is newFixedSizeBuffer(data, length).bytes() (EC coordinates).
+func VerifFixedSizeBuffer(data []byte, length int) []byte {
+	return newFixedSizeBuffer(data, length).bytes()
+}
